@@ -4,6 +4,10 @@ include!("/repo/rust/automerge-c/src/lib.rs");
 mod verif_driver;
 
 fn main() {
-    let path = std::env::var("C36_SCRIPT").expect("C36_SCRIPT=<script>");
-    verif_driver::run(&path);
+    // NB: parameters come as arguments, not environment variables: cargo-miri replays the
+    // environment it recorded when the crate was *built*, so env vars would be stale.
+    let mut a = std::env::args().skip(1);
+    let path = a.next().expect("usage: amc_miri <script> [no-items]");
+    let no_items = a.next().as_deref() == Some("no-items");
+    verif_driver::run(&path, no_items);
 }
